@@ -281,6 +281,9 @@ def run_c11(ctx):
     ctx.validate("QuadtreeList_Trace", shards, stage="replay-of-TLC-histories")
     shards = ctx.gen("qtrandom")
     ctx.validate("QuadtreeList_Trace", shards, stage="random-histories")
+    # sizes: trees of 300 .. 5000 (20 000) pointers, every query compared with a plain scan by the harness
+    shards = ctx.gen("qtbig", shards=1)
+    ctx.validate("QuadtreeList_Trace", shards, stage="big-trees")
     ctx.exhaustive = True
     ctx.notes.append("exhaustive part: every history of add/remove-by-point/remove-by-identity of length 4 (quick) / 5 (thorough) over a 6-point alphabet, replayed into the real tree")
 
@@ -288,7 +291,7 @@ def run_c11(ctx):
 PLANS["C11"] = dict(
     run=run_c11, signature=sig_default,
     technique="TLA+ bag model of the quadtree with relational query specs; TLC checks the node-tree design refines it over all short histories, generates every short history for replay into the real tree, and validates the recorded traces (contents, node cells, query results)",
-    level_text="TLC explores every history of add / remove-by-point / remove-by-identity up to length 5 (quick) / 6 (thorough) over a 6-point alphabet (duplicate, midline, bound-corner, outside points) and checks in every state that the node-tree transcription (midline rule, pull-up removal, pruned nearest-child-first search, array max-heap) refines the bag model for a family of 16 query points x k in 1..3 x 3 limits x 5 boxes x 3 filters. TLC then emits every history of length 4 (5) with predicted results; the harness replays them into a real quadtree.Quadtree and after each step records contents, the node tree (hook VerifWalk) and ~130 query results, plus seeded histories of 200-500 operations over 16 points; TLC judges every event against the bag model. Seeded histories run in three coordinate maps: integers, integers / 1024 (a unit-square tree: distance limits below 1), and positions in an increasing table of arbitrary floats (non-dyadic bounds, cell midlines written either way, one-ulp neighbours) for the order-based operations (add, remove, bound search incl. degenerate boxes). One distance limit per history equals the exact distance between a query point and a stored point (strictly-within boundary).",
+    level_text="TLC explores every history of add / remove-by-point / remove-by-identity up to length 5 (quick) / 6 (thorough) over a 6-point alphabet (duplicate, midline, bound-corner, outside points) and checks in every state that the node-tree transcription (midline rule, pull-up removal, pruned nearest-child-first search, array max-heap) refines the bag model for a family of 16 query points x k in 1..3 x 3 limits x 5 boxes x 3 filters. TLC then emits every history of length 4 (5) with predicted results; the harness replays them into a real quadtree.Quadtree and after each step records contents, the node tree (hook VerifWalk) and ~130 query results, plus seeded histories of 200-500 operations over 16 points; TLC judges every event against the bag model. Seeded histories run in three coordinate maps: integers, integers / 1024 (a unit-square tree: distance limits below 1), and positions in an increasing table of arbitrary floats (non-dyadic bounds, cell midlines written either way, one-ulp neighbours) for the order-based operations (add, remove, bound search incl. degenerate boxes). One distance limit per history equals the exact distance between a query point and a stored point (strictly-within boundary). Every 23rd observation uses k around the stored count and around 16 / 20 / 32, a k followed by k+1, and a limit of exactly zero; ranked tables hold points closer together than the square root of the smallest float. Sizes: trees of 300 .. 5000 (20 000) pointers with duplicates, midline points and a deep cluster go through fill / thin (removal by identity and by point) / refill, and after each phase 60 queries of every kind, filtered and not, are compared with a plain scan over what should be stored (by the harness; TLC checks the verdicts).",
     level_note="Integer coordinates in power-of-two bounds (all distances and midlines exact); ties between equidistant pointers may be broken either way; KNearest with k <= 0 is outside the quantifier and not exercised. Trusted: TLC, Json module, the VerifWalk hook (read-only), int conversions in the harness.",
     rule="one event = one operation on a real tree with the observed contents, node tree and all query results after it; every event is non-trivial (nt=1); distinct = distinct event text",
     assumptions=["pointer identity is modelled by a unique integer id per added pointer",
